@@ -24,4 +24,18 @@ def main (dump start out : String) : IO UInt32 := do
     if let some t := text then IO.FS.writeFile out t
   return 0
 
+/-- stdin lines: `<dump>\t<start>\t<out|->`; one outcome line per request -/
+def batch : IO UInt32 := do
+  ZeepVerif.Driver.forLines (← IO.getStdin) fun line => do
+    match (line.dropEndWhile (· == '\n')).toString.splitOn "\t" with
+    | [dump, start, out] =>
+      let content ← IO.FS.readFile dump
+      let (files, bad) := Dump.parse content
+      let (l, text) := outcome files start
+      IO.println (if bad > 0 then s!"bad-dump {bad}" else l)
+      if out != "-" then
+        if let some t := text then IO.FS.writeFile out t
+    | _ => IO.println "bad-line"
+  return 0
+
 end ZeepVerif.Driver.Gen
